@@ -91,15 +91,77 @@ func init() {
 	// clauses added after the first round
 	add("c14-bind-hostname", "C14.bind", urlGo, "m[\"host\"] = u.Host\n", "m[\"host\"] = u.Hostname()\n", "from_url")
 	add("c14-err-json-eof", "C14.err", "format/json/json.go", "\tif !lines && (len(vs) != 1 || !foundEOF) {", "\t_ = foundEOF\n\tif !lines && len(vs) != 1 {", "eof-flag")
-	add("c14-norm-rec", "C14.norm", "internal/gojqx/types.go", "v[i] = NormalizeFn(e, fn)", "v[i] = fn(e)", "NormalizeFn|loop")
+	add("c14-norm-rec", "C14.norm", "internal/gojqx/types.go", "vs[i] = NormalizeFn(e, fn)", "vs[i] = fn(e)", "NormalizeFn|loop")
 	add("c14-multi-merge", "C14.multi", xmlGo, "attrs[nname] = append(ea, naddrs)", "_ = ea\n\t\t\t\t\tattrs[nname] = []any{naddrs}", "merge#")
 	add("c14-xmlkeys-field", "C14.xmlkeys", xmlGo, "\t\t\tcase \"#comment\":\n\t\t\t\ts, _ := v.(string)\n\t\t\t\tn.Comment = []byte(s)", "\t\t\tcase \"#comment\":\n\t\t\t\ts, _ := v.(string)\n\t\t\t\tn.Chardata = []byte(s)", "mode:Array:#comment")
 	add("c14-pair-pem", "C14.pair", "format/crypto/pem.jq", "| _from_base64({encoding: \"std\"})", "| _from_base64({encoding: \"url\"})", "base64-pair:to_pem")
-	add("c14-jqerr-fromjson", "C14.jqerr", "format/json/json.jq", "def fromjson: decode(\"json\") | if ._error then error(._error.error) end;", "def fromjson: decode(\"json\");", "fromjson")
+	add("c14-jqerr-fromjson", "C14.jqerr", "format/json/json.jq", "def fromjson: decode(\"json\") | _decode_value_error as $e | if $e then error($e.error) end;", "def fromjson: decode(\"json\");", "fromjson")
 	add("c14-jqerr-term", "C14.jqerr", "format/json/jq.jq", "else error(\"unsupported term \\($v.term.type)\")", "else null", "unsupported-term")
 
 	// C14.shape
 	add("c14-shape-append-on-make", "C14.shape", "internal/gojqx/types.go", "\t\tvar vs []any\n\t\tfor _, e := range v {\n\t\t\tvs = append(vs, NormalizeFn(e, fn))", "\t\tvs := make([]any, len(v))\n\t\tfor _, e := range v {\n\t\t\tvs = append(vs, NormalizeFn(e, fn))", "NormalizeFn|append")
 	add("c14-shape-make-len", "C14.shape", "internal/gojqx/totype.go", "vvs := make([]any, len(vv))", "vvs := make([]any, len(vv)+1)", "ToGoJQValueFn|make")
 	add("c14-shape-fixed-index", "C14.shape", "internal/gojqx/totype.go", "vvs[i] = v", "vvs[i/2] = v", "ToGoJQValueFn|make")
+
+	// clauses added by the self-review by mutation (round 3)
+	const (
+		hashGo  = "format/crypto/hash.go"
+		jsonGo  = "format/json/json.go"
+		csvGo   = "format/csv/csv.go"
+		typesGo = "internal/gojqx/types.go"
+		radixJQ = "format/math/radix.jq"
+		jqJQ    = "format/json/jq.jq"
+	)
+	// C14.feed
+	add("c14-feed-source", "C14.feed", enc, "strings.NewReader(c)", "strings.NewReader(opts.Encoding)", "_to_strencoding|source")
+	add("c14-feed-hash-sink", "C14.feed", hashGo, "io.Copy(h, bitio.NewIOReader(inBR))", "io.Copy(io.Discard, bitio.NewIOReader(inBR))", "_to_hash|sink")
+	add("c14-feed-hex-sink", "C14.feed", enc, "io.Copy(hex.NewEncoder(buf), bitio.NewIOReader(br))", "io.Copy(hex.NewEncoder(&bytes.Buffer{}), bitio.NewIOReader(br))", "to_hex|sink")
+	add("c14-feed-jsonl-newline", "C14.feed", "format/json/jsonl.go", "\t\tbb.WriteByte('\\n')\n", "", "to_jsonl|newline")
+	// C14.flow
+	add("c14-flow-entry", "C14.flow", urlGo, "qv[k] = []string{vs}", "_ = vs\n\t\t\t\tqv[k] = []string{k}", "|entry#")
+	add("c14-flow-fresh", "C14.flow", csvGo,
+		"\tfor _, row := range c {\n\t\trs, ok := gojqx.Cast[[]any](row)\n\t\tif !ok {\n\t\t\treturn fmt.Errorf(\"expected row to be an array, got %s\", gojqx.TypeErrorPreview(row))\n\t\t}\n\t\tvs, ok := gojqx.NormalizeToStrings(rs).([]any)\n\t\tif !ok {\n\t\t\tpanic(\"not array\")\n\t\t}\n\t\tvar ss []string\n",
+		"\tvar ss []string\n\tfor _, row := range c {\n\t\trs, ok := gojqx.Cast[[]any](row)\n\t\tif !ok {\n\t\t\treturn fmt.Errorf(\"expected row to be an array, got %s\", gojqx.TypeErrorPreview(row))\n\t\t}\n\t\tvs, ok := gojqx.NormalizeToStrings(rs).([]any)\n\t\tif !ok {\n\t\t\tpanic(\"not array\")\n\t\t}\n",
+		"toCSV|fresh#")
+	add("c14-flow-sole-entry", "C14.flow", xmlGo, "} else if len(attrs) == 1 && attrs[\"#text\"] != nil {", "} else if len(attrs) >= 1 && attrs[\"#text\"] != nil {", "sole-entry#")
+	// C14.urlkeys
+	add("c14-urlkeys-field", "C14.urlkeys", urlGo, "m[\"host\"] = u.Host\n", "m[\"host\"] = u.Path\n", "field:host")
+	add("c14-urlkeys-userinfo", "C14.urlkeys", urlGo, "url.UserPassword(username, password)", "url.UserPassword(password, username)", "userinfo:to_url")
+	// C14.err
+	add("c14-err-json-single", "C14.err", jsonGo, "(len(vs) != 1 || !foundEOF)", "(len(vs) < 1 || !foundEOF)", "single-value")
+	add("c14-err-json-lines", "C14.err", jsonGo, "\t\t\t} else if lines {\n\t\t\t\td.Fatalf(\"%s\", err.Error())\n\t\t\t}\n", "\t\t\t}\n", "error-continues")
+	add("c14-err-xml-default", "C14.err", xmlGo, "\t\tdefault:\n\t\t\td.Fatalf(\"root element has trailing data\")\n", "", "trailing-default")
+	// C14.xmlkeys
+	add("c14-xmlkeys-attr-prefix", "C14.xmlkeys", xmlGo, "attrs[xi.AttributePrefix+name] = a.Value", "attrs[name] = a.Value", "mode:Object:attr-prefix")
+	// C14.seq
+	add("c14-seq-flag-and", "C14.seq", xmlGo,
+		"f(k, v)\n\t\t\t\t\t\tn.Nodes = append(n.Nodes, nn)\n\t\t\t\t\t\torderNames = append(orderNames, k)\n\t\t\t\t\t\torderSeqs = append(orderSeqs, nseq)\n\t\t\t\t\t\torderHasSeq = orderHasSeq || nHasSeq",
+		"f(k, v)\n\t\t\t\t\t\tn.Nodes = append(n.Nodes, nn)\n\t\t\t\t\t\torderNames = append(orderNames, k)\n\t\t\t\t\t\torderSeqs = append(orderSeqs, nseq)\n\t\t\t\t\t\torderHasSeq = orderHasSeq && nHasSeq", "|flag#")
+	add("c14-seq-lockstep", "C14.seq", xmlGo,
+		"f(k, \"\")\n\t\t\t\t\t\t\tn.Nodes = append(n.Nodes, nn)\n\t\t\t\t\t\t\torderNames = append(orderNames, k)\n\t\t\t\t\t\t\torderSeqs = append(orderSeqs, nseq)\n",
+		"f(k, \"\")\n\t\t\t\t\t\t\tn.Nodes = append(n.Nodes, nn)\n\t\t\t\t\t\t\torderNames = append(orderNames, k)\n\t\t\t\t\t\t\t_ = nseq\n", "|lockstep#")
+	add("c14-seq-flag-set", "C14.seq", xmlGo, "\t\t\t\t\thasSeq = true\n", "\t\t\t\t\thasSeq = false\n", "|flag-set#")
+	// C14.json
+	add("c14-json-resume", "C14.json", cj, "\t\t\ti++\n\t\t\tstart = i\n\t\t\tcontinue\n\t\t}\n\t\tc, size", "\t\t\tstart = i\n\t\t\ti++\n\t\t\tcontinue\n\t\t}\n\t\tc, size", "|resume#")
+	add("c14-json-ufffd", "C14.json", cj, "`\\ufffd`", "`\\ufffe`", "escape:ufffe")
+	add("c14-json-delete-byte", "C14.json", cj, "buf = buf[:n-1]", "buf = buf[:n-2]", "delete-byte")
+	add("c14-json-flush", "C14.json", cj, "\t\t\tif start < i {\n\t\t\t\te.w.WriteString(s[start:i])\n\t\t\t}\n\t\t\te.w.WriteString(`\\ufffd`)", "\t\t\te.w.WriteString(`\\ufffd`)", "flush-before-resume")
+	// C14.norm
+	add("c14-norm-scalar", "C14.norm", typesGo, "return NormalizeFn(v.JQValueToGoJQ(), fn)", "return fn(v.JQValueToGoJQ())", "scalar-fn")
+	// C14.multi
+	add("c14-multi-index-dead", "C14.multi", urlGo, "if len(v) > 1 {", "if len(v) > 0 {", "index[0]")
+	// C14.radix
+	add("c14-radix-digit-guard", "C14.radix", radixJQ, ". >= $base then error", ". > $base then error", "from-digit-guard")
+	add("c14-radix-null-digit", "C14.radix", radixJQ, "if . == null or . >= $base then", "if . >= $base then", "from-unknown-digit")
+	add("c14-radix-positional", "C14.radix", radixJQ, "[$b, .[1] + (.[0] * $c)]", "[$b, .[1] + ($b * $c)]", "from-positional")
+	add("c14-radix-reverse", "C14.radix", radixJQ, "  | split(\"\")\n  | reverse\n", "  | split(\"\")\n", "from-positional")
+	add("c14-radix-mod", "C14.radix", radixJQ, ". % $base]", ". % 10]", "to-divmod")
+	add("c14-radix-order", "C14.radix", radixJQ, "      | .[1:]\n", "      | .[:-1]\n", "to-digit-order")
+	// C14.jqlit
+	add("c14-jqlit-number", "C14.jqlit", jqJQ, "$v.term.number | tonumber", "$v.term.number", "from_jq|number")
+	add("c14-jqlit-true", "C14.jqlit", jqJQ, "elif . == \"TermTypeTrue\" then true", "elif . == \"TermTypeTrue\" then false", "literal:true")
+	add("c14-jqlit-keys", "C14.jqlit", jqJQ, "                  elif .key then .key\n", "", "object-keys")
+	add("c14-jqlit-negative", "C14.jqlit", jqJQ, "then -(.term.number | tonumber)", "then (.term.number | tonumber)", "from_jq|negative")
+	// C14.pair
+	add("c14-pair-default-order", "C14.pair", encJQ, "def to_base64($opts): _to_base64({encoding: \"std\"} + $opts);", "def to_base64($opts): _to_base64($opts + {encoding: \"std\"});", "overrides the caller")
 }
